@@ -333,6 +333,12 @@ type track struct {
 	arr  int
 	gas  int64
 	prio int64
+	// ambig: an accepting response arrived while the tx was in the pool and no second copy
+	// shows up: either the response was dropped (pool full, sender conflict) and the old entry
+	// stands, or the old entry left (evicted by this very response, expired or committed in an
+	// update that could not be observed) and a new one was inserted. Its position in the defined
+	// order is unknown until it leaves the pool.
+	ambig bool
 }
 
 type sim struct {
@@ -981,6 +987,7 @@ func (s *sim) deliverHead() {
 	switch r.kind {
 	case kFlush:
 		close(r.done)
+		e.Logf(" deliver flush")
 		e.Count("probe.flush_answered")
 		s.settle()
 		s.absorb()
@@ -1043,6 +1050,7 @@ func (s *sim) deliverHead() {
 		code = 1
 	}
 	res := &abci.ResponseCheckTx{Code: code, GasWanted: v.gas, Priority: v.prio, Sender: v.sender}
+	e.Logf(" deliver kind=%d tx%d requested=%s appver=%d ok=%v gas=%d prio=%d sender=%q window=%v", r.kind, r.txi, r.tag, ver, v.ok, v.gas, v.prio, v.sender, window)
 	if r.ch != nil {
 		r.ch <- res
 	} else {
@@ -1095,6 +1103,7 @@ func (s *sim) commitFinished() bool {
 	s.commits++
 	s.nUpdates++
 	s.env.Count("probe.commit_done")
+	s.env.Logf(" commit of height %d done, app version %d", s.height, s.appVersion())
 	return true
 }
 
@@ -1180,6 +1189,7 @@ func (s *sim) after(op simcore.Op) bool {
 			rest = append(rest, a)
 			continue
 		}
+		e.Logf(" checktx tx%d returned %v", a.txi, a.err)
 		switch {
 		case a.err == nil:
 			e.Count("probe.checktx_sent")
@@ -1212,6 +1222,7 @@ func (s *sim) after(op simcore.Op) bool {
 		s.observe()
 	}
 	_, _, nq := s.conn.counts()
+	e.Logf(" queue=%d mutexwaiters=%d phase=%s parked=%v", nq, s.mutexW, s.phaseTag(), s.commitParked.Load())
 	e.State(s.ver, s.mcfg.Size, len(s.lastObs), len(s.lru.order), nq, s.phaseTag(), s.commit != nil, s.mutexW, op.Kind())
 	return true
 }
@@ -1306,6 +1317,9 @@ func (s *sim) observe() {
 			v := s.admitV[i]
 			s.tracked[i] = &track{arr: s.seq, gas: v.gas, prio: v.prio}
 			e.Count("probe.admitted")
+		} else if seen[i] {
+			s.tracked[i].ambig = true
+			e.Count("probe.ambiguous_readmission")
 		}
 	}
 	for i := range s.delivNew {
@@ -1320,27 +1334,30 @@ func (s *sim) observe() {
 			delete(s.tracked, i)
 		}
 	}
-	for i := range s.dupSuspect {
-		if !seen[i] {
-			delete(s.dupSuspect, i)
-		}
-	}
+	// sizes agree and nothing is held twice: no hidden copies
+	s.dupSuspect = map[int]int{}
 	for _, i := range idx {
 		if s.tracked[i] == nil {
 			e.Fail("C12", s.vn+"-unaccepted-tx", "%s: tx%d is in the pool although no accepting CheckTx response for it was delivered", s.vn, i)
 			s.tracked[i] = &track{arr: s.seq}
 		}
 	}
-	// defined order
+	// defined order (entries whose position is ambiguous are left out)
 	if !dup {
-		for k := 1; k < len(idx); k++ {
-			a, b := s.tracked[idx[k-1]], s.tracked[idx[k]]
+		var ord []int
+		for _, i := range idx {
+			if !s.tracked[i].ambig {
+				ord = append(ord, i)
+			}
+		}
+		for k := 1; k < len(ord); k++ {
+			a, b := s.tracked[ord[k-1]], s.tracked[ord[k]]
 			bad := a.arr > b.arr
 			if s.ver == 1 {
 				bad = a.prio < b.prio || a.prio == b.prio && a.arr > b.arr
 			}
 			if bad {
-				e.Fail("C12", s.vn+"-order", "%s: ReapMaxTxs(-1) order %v violates the defined order at position %d (prio/arrival %d/%d before %d/%d)", s.vn, idx, k, a.prio, a.arr, b.prio, b.arr)
+				e.Fail("C12", s.vn+"-order", "%s: ReapMaxTxs(-1) order %v violates the defined order: tx%d (prio %d, arrival #%d) comes before tx%d (prio %d, arrival #%d)", s.vn, idx, ord[k-1], a.prio, a.arr, ord[k], b.prio, b.arr)
 			}
 		}
 	}
@@ -1358,6 +1375,7 @@ func (s *sim) observe() {
 		}
 	}
 	s.lastObs = idx
+	e.Logf(" pool %v size=%d bytes=%d lru=%v", idx, s.mp.Size(), s.mp.SizeBytes(), s.lru.order)
 	if len(idx) == s.mcfg.Size {
 		e.Count("probe.pool_full_count")
 	}
